@@ -317,7 +317,7 @@ def run(ctx):
     rep = fw.Report()
     specs = c13lib.build_catalogue()
     ref = compute_references(ctx, specs, rep, 8 if ctx.quick else 16)
-    n_ex, steps = (20, 30) if ctx.quick else (400, 60)
+    n_ex, steps = (20, 30) if ctx.quick else (1500, 60)
     args = [("machine", ctx.seed * 1000 + i, n_ex, steps, specs, ref, ctx.deadline) for i in range(16)]
     rep.merge(fw.run_shards(ctx, "props.c13", "shard", args))
     rep.extra.pop("ref", None)
